@@ -304,8 +304,10 @@ def make_cases(tier, seed, n_random=None, n_productive=None, n_hist=None):
         if s is None:
             continue
         k += 1
+        s2 = dom_cfg.long_string(gp, L, random.Random(rng.randrange(1 << 30)))
         for kind in ["EarleyLM", "EarleyLMRescaled", "Earley", "EarleyRescaled", "BoolCFGLM"] + (["CKYLM", "IncrementalCKY"] if L <= 60 else []):
-            cases.append(dict(type="long", name=name, g=gp, sr="Float", kind=kind, context=tuple(s[:L])))
+            cases.append(dict(type="long", name=name, g=gp, sr="Float", kind=kind, context=tuple(s[:L]),
+                              context2=tuple(s2[:L]) if (s2 is not None and kind in ("EarleyLM", "EarleyLMRescaled", "BoolCFGLM")) else None))
     return cases
 
 
@@ -545,6 +547,26 @@ def check_long(case, out):
                 viol("outcome-differs: " + label, position=len(q[1]), query=q[0], warm=a, other=b)
             elif a[0] == "ok" and not same(a[1], b[1]):
                 viol("answer-differs: " + label, position=len(q[1]), query=q[0], warm=a[1], other=b[1])
+    # two hypotheses of equal length advanced in LOCK-STEP on one object (beam search): A[:k], B[:k], A[:k+1], B[:k+1], ...; the chart
+    # built last always belongs to the OTHER hypothesis (strengthened after seeded change C05-10)
+    ctx2 = tuple(case.get("context2") or ())
+    if ctx2 and len(ctx2) == L and ctx2 != ctx:
+        st, both = call(build, kind, bridge.to_cfg(g, sr))
+        if st == "ok":
+            seen = {}
+            for k in range(L + 1):
+                for c in (ctx, ctx2):
+                    seen[c[:k]] = query(kind, both, ("p_next", c[:k]))[0]
+            for c in (ctx, ctx2):
+                for k in sorted({L - 2, L - 1, L}):
+                    st, obj = call(build, kind, bridge.to_cfg(g, sr))
+                    ref = query(kind, obj, ("p_next", c[:k]))[0] if st == "ok" else ("exc", "constructor")
+                    out["n"] += 1
+                    a = seen[c[:k]]
+                    if a[0] != ref[0]:
+                        viol("outcome-differs: lock-step", position=k, query="p_next", warm=a, other=ref)
+                    elif a[0] == "ok" and not same(a[1], ref[1]):
+                        viol("answer-differs: lock-step", position=k, query="p_next", warm=a[1], other=ref[1])
     if any(v[0] == "ok" and v[1] for v in got.values()):
         out["keys"].append(sig(case["name"], kind, "long", L))
 
